@@ -33,6 +33,11 @@ public:
     static int total();
     static int scaled(int k);
     int own() const;
+    Tally(int start);
+    ~Tally();
+    int bumpBy(int k, int times = 1);
+    void reset();
+    double ratio(double d) const;
     int t;
 };
 #endif
